@@ -61,6 +61,7 @@ func profGeneral(t *tape.Tape) model.Profile {
 		p.PrefixTraps = true
 	}
 	p.CrossDeviationTrap = true
+	p.Posix = t.Sub("posix").Chance(1, 3)
 	return p
 }
 
@@ -76,11 +77,16 @@ type batchOutcome struct {
 
 // runBatch loads texts (by name, in order) into a fresh Modules under sched and processes once.
 func runBatch(texts map[string]string, order []string, sched *maporder.Schedule, opts world.Options) *batchOutcome {
+	return runBatchOp(texts, order, sched, opts, world.Op{Op: "process"})
+}
+
+// runBatchOp is runBatch with another final operation (process or getmodule).
+func runBatchOp(texts map[string]string, order []string, sched *maporder.Schedule, opts world.Options, final world.Op) *batchOutcome {
 	spec := &world.Spec{Texts: texts, Sched: sched, Options: opts}
 	for _, n := range order {
 		spec.Ops = append(spec.Ops, world.Op{Op: "parse", Name: n})
 	}
-	spec.Ops = append(spec.Ops, world.Op{Op: "process"})
+	spec.Ops = append(spec.Ops, final)
 	res := world.Exec(spec)
 	return outcomeOf(res)
 }
@@ -104,7 +110,7 @@ func outcomeOf(res *world.Result) *batchOutcome {
 			if r.Err != "" {
 				fmt.Fprintf(&sb, "load %s: error: %s\n", r.Op.Name, r.Err)
 			}
-		case "process":
+		case "process", "getmodule":
 			bo.Errs = r.Errs
 			if len(r.Errs) > 0 {
 				for i, e := range r.Errs {
@@ -367,14 +373,26 @@ func noRevPair(s *model.Scenario) bool {
 // addOlderRevision (with probability 1/den) turns one module of the scenario
 // into revision 2021-05-05 and adds an older revision 2019-03-03 of it that
 // differs: an extra leaf, possibly one identity less, its first typedef based
-// on another built-in type.  It returns the module name, or "".
+// on another built-in type.  Some importers are pinned to the older revision
+// with a revision-date.  It returns the module name, or "".
 func addOlderRevision(rt *tape.Tape, s *model.Scenario, den int) string {
+	return addOlderRevisionOpt(rt, s, den, false)
+}
+
+const olderRev, newerRev = "2019-03-03", "2021-05-05"
+
+// addOlderRevisionOpt is addOlderRevision; with same set, the older revision
+// has the definitions (typedefs, groupings, identities) of the newer one
+// unchanged, and only importers that neither augment nor deviate the module
+// are pinned, so that the trees of all latest revisions equal those of the
+// scenario without the older revision.
+func addOlderRevisionOpt(rt *tape.Tape, s *model.Scenario, den int, same bool) string {
 	if !rt.Chance(1, den) {
 		return ""
 	}
 	var cand []*model.Mod
 	for _, m := range s.Mods {
-		if !m.IsSub() && len(m.Includes) == 0 && len(m.Deviations) == 0 && len(m.Revs) == 0 {
+		if !m.IsSub() && len(m.Includes) == 0 && len(m.Deviations) == 0 && len(m.Revs) == 0 && m.Name != model.PosixModule {
 			cand = append(cand, m)
 		}
 	}
@@ -382,21 +400,105 @@ func addOlderRevision(rt *tape.Tape, s *model.Scenario, den int) string {
 		return ""
 	}
 	m := cand[rt.Intn(len(cand))]
-	m.Revs = []string{"2021-05-05"}
+	m.Revs = []string{newerRev}
 	b, _ := json.Marshal(m)
 	older := &model.Mod{}
 	json.Unmarshal(b, older)
-	older.Revs = []string{"2019-03-03"}
+	older.Revs = []string{olderRev}
 	older.Augments = nil
 	older.Body = append(older.Body, &model.Node{Kind: model.KLeaf, Name: "only-in-older-revision", Type: &model.Type{Ref: model.Ref{Name: "string"}}})
-	if len(older.Identities) > 0 && rt.Chance(1, 2) {
-		older.Identities = older.Identities[:len(older.Identities)-1]
+	if !same {
+		if len(older.Identities) > 0 && rt.Chance(1, 2) {
+			older.Identities = older.Identities[:len(older.Identities)-1]
+		}
+		if len(older.Typedefs) > 0 {
+			td := older.Typedefs[0]
+			td.Type = &model.Type{Ref: model.Ref{Name: []string{"int32", "boolean", "uint8"}[rt.Intn(3)]}}
+			td.Default = ""
+		}
 	}
-	if len(older.Typedefs) > 0 {
-		td := older.Typedefs[0]
-		td.Type = &model.Type{Ref: model.Ref{Name: []string{"int32", "boolean", "uint8"}[rt.Intn(3)]}}
-		td.Default = ""
+	// importers pinned to the older revision
+	pt := rt.Sub("pins")
+	for _, b := range s.Mods {
+		if b.Name == m.Name || b.Owner() == m.Name {
+			continue
+		}
+		imports := false
+		for _, x := range model.Imports(s, b) {
+			if x == m.Name {
+				imports = true
+			}
+		}
+		if !imports || !pt.Chance(1, 2) {
+			continue
+		}
+		if same && targets(s, b, m.Name) {
+			continue
+		}
+		if b.ImportRev == nil {
+			b.ImportRev = map[string]string{}
+		}
+		b.ImportRev[m.Name] = olderRev
 	}
 	s.Mods = append(s.Mods, older)
 	return m.Name
+}
+
+// targets reports whether an augment or deviation of b has a path step in
+// module mod's namespace.
+func targets(s *model.Scenario, b *model.Mod, mod string) bool {
+	hit := func(steps []model.Step) bool {
+		for _, st := range steps {
+			if st.Mod == mod {
+				return true
+			}
+			if x := s.Mod(st.Mod); x != nil && x.Owner() == mod {
+				return true
+			}
+		}
+		return false
+	}
+	for _, a := range b.Augments {
+		if hit(a.Target) {
+			return true
+		}
+	}
+	for _, d := range b.Deviations {
+		if hit(d.Target) {
+			return true
+		}
+	}
+	return false
+}
+
+// latestOnly returns the scenario as the reference model sees it: of several
+// revisions of a module only the latest, imports not pinned.  It returns s
+// itself when no module name occurs twice.
+func latestOnly(s *model.Scenario) *model.Scenario {
+	latest := map[string]string{}
+	dup := false
+	for _, m := range s.Mods {
+		if r, ok := latest[m.Name]; ok {
+			dup = true
+			if m.LatestRev() > r {
+				latest[m.Name] = m.LatestRev()
+			}
+		} else {
+			latest[m.Name] = m.LatestRev()
+		}
+	}
+	if !dup {
+		return s
+	}
+	n := s.Clone()
+	var mods []*model.Mod
+	for _, m := range n.Mods {
+		if m.LatestRev() != latest[m.Name] {
+			continue
+		}
+		m.ImportRev = nil
+		mods = append(mods, m)
+	}
+	n.Mods = mods
+	return n
 }
